@@ -67,7 +67,7 @@ impl<T: Read> ReadInputSource<T> {
                 found = true;
             }
         }
-        Ok(String::from_utf8(buf).unwrap())
+        String::from_utf8(buf).map_err(|e| std::io::Error::new(ErrorKind::InvalidData, e))
     }
 
     fn read_until<F>(&mut self, predicate: F) -> std::io::Result<String>
@@ -93,7 +93,7 @@ impl<T: Read> ReadInputSource<T> {
                 }
             }
         }
-        Ok(String::from_utf8(buf).unwrap())
+        String::from_utf8(buf).map_err(|e| std::io::Error::new(ErrorKind::InvalidData, e))
     }
 }
 
